@@ -116,10 +116,15 @@ type WOp struct {
 
 // ROp is one step of a read program (cycled until the connection fails).
 type ROp struct {
-	Kind    string `json:"k"` // rm ReadMessage | nr NextReader+Read | json ReadJSON | join JoinMessages
+	Kind    string `json:"k"` // rm ReadMessage | nr NextReader+Read | json ReadJSON | join JoinMessages | limit SetReadLimit(NewLimit)
 	Sizes   []int  `json:"sizes,omitempty"`
 	Abandon int    `json:"abandon,omitempty"` // nr: stop reading after this many bytes (-1/0 = read to EOF)
 	Term    string `json:"term,omitempty"`
+	// SetReadLimit during the connection's life: kind "limit" calls it between messages; on an "nr"
+	// op SetLimit calls it once LimitAt bytes of the message have been read (0 = right after NextReader)
+	SetLimit bool  `json:"set_limit,omitempty"`
+	LimitAt  int   `json:"limit_at,omitempty"`
+	NewLimit int64 `json:"new_limit,omitempty"`
 }
 
 // TaskCfg attaches a program to a real endpoint.
